@@ -676,6 +676,14 @@ Definition batch_counts_match (r : request) : bool :=
   | _ => true
   end.
 
+(* ---- the 4 GiB case (finding: `as u32` in SerializedRequest::make) --------------------------- *)
+(* Body size of a BATCH of n unprepared statements of t bytes each, empty value lists, no serial
+   consistency / timestamp (Request_proofs.len32_batch), the length field the code writes for a
+   body of that size, and the class of inputs on which field <> size. *)
+Definition batch_body_len (n t : N) : N := 1 + 2 + n * (1 + 4 + t + 2) + 2 + 1.
+Definition header_len_field (body_len : N) : N := body_len mod 4294967296.
+Definition len32_class (body_len : N) : bool := 4294967296 <=? body_len.
+
 (* For EXECUTE the parser must be told whether the metadata-id extension is in use. *)
 Definition mid_matches (mid : bool) (r : request) : Prop :=
   match r with Execute _ m _ => mid = is_some m | _ => True end.
